@@ -23,9 +23,11 @@ MANIFEST = {
     "note": "BLS is idealised: FastAggregateVerify/BLSVerify/aggregation enter the theorems as Section variables with one "
             "completeness hypothesis (the aggregate of valid single signatures verifies under any permutation of their keys); the "
             "correspondence instantiates them by the ideal functionality on symbolic signatures while the Go side uses real BLS. "
-            "Hypotheses of assemble_accepts: validator addresses and BLS keys pairwise distinct within a parameter set; block IDs "
-            "of the own chain distinct; no reorg between admission and assembly (the pool is not purged on block deletion). "
-            "Three defects repaired in /repo (fix: commits), see findings/C06.json.",
+            "Hypotheses of assemble_accepts: validator addresses and BLS keys pairwise distinct within a parameter set; the "
+            "node certifies with the BLS key registered for its address. "
+            "Reorgs are covered: pool operations interleaved with applied and deleted blocks (reachable_chain), tied by a scenario on "
+            "the full Executer (apply, admit, delete, sibling, finalise, assemble, verify). Four defects repaired in /repo (fix: commits), "
+            "see findings/C06.json.",
 }
 IMPORTS = "From LE Require Import Cert.Bits Cert.AggCommit Cert.Pool Corr.C06."
 
@@ -91,7 +93,8 @@ def scenario_term(r):
         p["h"], clist(p["v"], lambda v: "(Build_validator %d %d (nth %d kt []))" % (v["a"], v["w"], v["k"])), p["t"]))
     chain = clist(r["chain"], lambda h: "(%d, Build_header %s %d)" % (h["h"], cert(h["c"]), h["ac"]))
     env = "(Build_env %d %d %s %s)" % (r["mhp"], r["mhc"], params, chain)
-    return "(let kt := %s in (kt, %s, %s))" % (kt, env, clist(r["ops"], op_term))
+    pool0 = "(%s, %s)" % (commits(r.get("pg0")), commits(r.get("png0")))
+    return "(let kt := %s in (kt, %s, %s, %s))" % (kt, env, pool0, clist(r["ops"], op_term))
 
 
 def split(r, chunk=150):
@@ -126,9 +129,9 @@ def evaluate(ck, recs):
             elif t == "g":
                 a = o["g"].get("ac")
                 if a and a["bits"]:
-                    ck.nontrivial(("g", p["id"], a["h"], tuple(a["bits"])))
+                    ck.nontrivial(("g", p["id"], p.get("phase", 0), a["h"], tuple(a["bits"])))
             elif t in ("s", "c"):
-                ck.nontrivial((t, p["id"], o.get("r"), len(o.get("png") or []), len(o.get("pg") or []), o.get("from"), o.get("to")))
+                ck.nontrivial((t, p["id"], p.get("phase", 0), o.get("r"), len(o.get("png") or []), len(o.get("pg") or []), o.get("from"), o.get("to")))
         if code == 0:
             continue
         ix, c = code // 4, code % 4
@@ -137,8 +140,8 @@ def evaluate(ck, recs):
         names = {"v": "verifyAggregateCommit", "s": "singleCommitValidator", "c": "Certify", "g": "GetAggregateCommit->verifyAggregateCommit",
                  "a": "Pool.Add", "cl": "Pool.Cleanup", "se": "Pool.Select", "u": "Pool.Upgrade"}
         kind = o["t"] + (":" + o.get("tag", "") if o["t"] == "v" else "")
-        what = "%s: implementation %s (scenario %d part %s op %d): %s" % (
-            names[o["t"]], "violates the C06 oracle" if spec_bad else "differs from the proved model", p["id"], p["part"], ix,
+        what = "%s: implementation %s (scenario %d phase %d part %s op %d): %s" % (
+            names[o["t"]], "violates the C06 oracle" if spec_bad else "differs from the proved model", p["id"], p.get("phase", 0), p["part"], ix,
             json.dumps(o)[:900])
         f = dict(kind="input", key="c06:%s:%s" % (kind, "spec" if spec_bad else "model"), what=what,
                  case={"scenario": p["id"], "part": p["part"], "op_index": ix, "op": o, "mhp": p["mhp"], "mhc": p["mhc"],
@@ -147,19 +150,46 @@ def evaluate(ck, recs):
         ck.failures.append(f)
 
 
+def reorg(ck):
+    """reorg scenarios on the full Executer (harness/internal/exh): a commit for a block that is then deleted and replaced"""
+    binp = ck.go_build("c06reorg")
+    if not binp:
+        return
+    recs = ck.run_harness(binp, ["-cases", "3" if ck.tier == "quick" else "40"], out_name="reorg.jsonl")
+    if recs is None:
+        return
+    for r in recs:
+        ck.count()
+        ck.nontrivial(("reorg", r["len"], r["stale_signer"], tuple(r["honest_signers"]), r["verify"][:6]))
+        if not r["stale_admitted"]:
+            ck.fail_case("c06:reorg:setup", "reorg scenario: the commit for the non-finalised parameter-change block was not admitted "
+                         "(scenario no longer exercises the reorg path): %s" % json.dumps(r)[:600], r)
+        if r["verify"] != "accept":
+            ck.failures.append(dict(kind="input", key="c06:reorg:spec", spec_violated=True, case=r,
+                                    what="GetAggregateCommit after a reorg: the node's own verifyAggregateCommit rejects the commit it assembled "
+                                         "(a single commit for the deleted block is still in the pool: %s): %s" % (r["stale_left_after_reorg"], json.dumps(r)[:700]),
+                                    theorem_or_correspondence="C06_assemble_accepts_across_reorgs vs Executer (exh)"))
+        elif r["stale_left_after_reorg"]:
+            ck.failures.append(dict(kind="input", key="c06:reorg:model", spec_violated=False, case=r,
+                                    what="deleteBlock left a commit for the deleted block in the pool (model: on_delete_block purges it): %s" % json.dumps(r)[:600],
+                                    theorem_or_correspondence="Cert.Pool.on_delete_block vs Executer.deleteBlock"))
+    ck.sample(recs[0])
+
+
 def run(ck):
     ck.prove(extra_targets=["Corr/C06.vo"])
     binp = ck.go_build("c06")
     if not binp:
         return
     if ck.tier == "quick":
-        args = ["-scenarios", "6", "-long", "2", "-poolops", "60"]
+        args = ["-scenarios", "6", "-long", "2", "-poolops", "60", "-phases", "2"]
     else:
-        args = ["-scenarios", "40", "-long", "10", "-poolops", "150"]
+        args = ["-scenarios", "40", "-long", "10", "-poolops", "150", "-phases", "4"]
     recs = ck.run_harness(binp, args)
     if recs is None:
         return
     evaluate(ck, recs)
+    reorg(ck)
     r0 = recs[0]
     for o in [x for x in r0["ops"] if x["t"] == "v" and x["r"] == "accept"][:1] + [x for x in r0["ops"] if x["t"] == "v" and x["tag"] == "bitflip"][:1] + \
             [x for x in r0["ops"] if x["t"] == "g" and x["g"].get("ac") and x["g"]["ac"]["bits"]][:1] + [x for x in r0["ops"] if x["t"] == "s"][:1]:
@@ -170,7 +200,9 @@ def run(ck):
                       "subset at every height of a sweep around maxHeightCertified, maxHeightPrecommitted, the next parameter height and the "
                       "tip; every single-bit flip, bitmap length change, every other sweep height, and six signature tamperings of accepted "
                       "commits; pools filled with every non-empty signer subset then GetAggregateCommit -> verify; random sequences of gossip "
-                      "messages (valid/invalid/duplicate/undecodable), Certify ranges, Cleanup/Select/Upgrade, GetAggregateCommit. "
+                      "messages (valid/invalid/duplicate/undecodable), Certify ranges, Cleanup/Select/Upgrade, GetAggregateCommit; then the history goes "
+                      "on in further phases: 1-9 more blocks (finality and certified height move, further parameter changes), the pool carried "
+                      "over, more pool operations under the new view; plus reorg scenarios on the full Executer. "
                       "Non-trivial/distinct: verify ops distinct by (kind, result, bitmap, height relative to the two BFT heights); "
                       "non-empty assembled commits distinct by (scenario, height, bitmap); gossip/Certify ops distinct by outcome and pool size")
     ck.extra["traces_validated_against_impl"] = len(recs)
